@@ -13,6 +13,8 @@
 mod client;
 #[path = "../xfr.rs"]
 mod xfr;
+#[path = "../xfr_client.rs"]
+mod xfr_client;
 use serde_json::Value;
 use verif_harness::common::*;
 
@@ -22,7 +24,7 @@ fn main() {
         let abs = input["msgs"].as_array().cloned().unwrap_or_default();
         let msgs: Vec<Vec<u8>> = abs.iter().map(|m| xfr::render(m).as_slice().to_vec()).collect();
         let own: Vec<bool> = abs.iter().map(|m| m["id"].as_i64().unwrap_or(1) == 1).collect();
-        let v: Value = xfr::client_run(qtype, &msgs, &own);
+        let v: Value = xfr_client::client_run(qtype, &msgs, &own);
         v
     });
 }
